@@ -224,6 +224,17 @@ def cal_ok(cal, nfields):
     return True
 
 
+def probe_ok(q):
+    """a configuration handed to check_config_valid: the five constructor arguments, finite positive raster parameters"""
+    try:
+        return (isinstance(q, dict) and all(isinstance(q[k], (int, float)) and not isinstance(q[k], bool) and math.isfinite(q[k])
+                                             for k in ("spotsize", "speed", "scantime", "warmup"))
+                and q["spotsize"] > 0 and q["speed"] > 0 and q["scantime"] > 0 and abs(q["warmup"] / q["scantime"]) < 2**40
+                and pairs_ok(q["pairs"]))
+    except Exception:
+        return False
+
+
 def read_ok(rd):
     return (isinstance(rd, dict) and (rd.get("element") is None or (isinstance(rd["element"], int) and not isinstance(rd["element"], bool)))
             and (rd.get("layer") is None or (isinstance(rd["layer"], int) and not isinstance(rd["layer"], bool)))
@@ -275,7 +286,7 @@ def real(fn, *a, **kw):
 class C09(Prop):
     id = "C09"
     anchored = ["src/pewlib/srr/srr.py", "src/pewlib/srr/config.py", "src/pewlib/process/calc.py"]
-    cases = {"quick": 380, "thorough": 13000}
+    cases = {"quick": 330, "thorough": 12000}
     rule = ("crossed stacks of 2..5 layers (layer i has the shape of layer i mod 2), 1..6 lines, samples = warm-up + needed + excess "
             "0..7 (or 1-2 short / negative warm-up: the validity check must then not accept something that cannot be reconstructed), "
             "magnification 1..4 realised by (spotsize, speed, scantime) triples incl. binary-inexact values whose float quotient is the "
@@ -397,6 +408,8 @@ class C09(Prop):
         if rng.random() < 0.3:
             self.gen_cal(rng, case)
         self.gen_extra(rng, case, 0.25)
+        if rng.random() < 0.4:
+            self.gen_probes(rng, case)
         return case
 
     def gen_extra(self, rng, case, p):
@@ -411,6 +424,33 @@ class C09(Prop):
                 if not any(ex[2:]) and ex[0] == ex[1] == 0:
                     ex[2] = 1
             case["extra"] = ex
+
+    def gen_probes(self, rng, case):
+        """1-3 configurations OTHER than the object's own for check_config_valid: more / less / negative warm-up, the largest
+        warm-up that still fits and one sample more, another magnification, other offsets"""
+        (l0, s0), (l1, s1) = case["shapes"]
+        M = case["mag"]
+        fit = min(s0 - l1 * M, s1 - l0 * M)
+        out = []
+        for _ in range(rng.choice([1, 2, 2, 3])):
+            q = {k: case[k] for k in ("spotsize", "speed", "scantime", "warmup", "pairs")}
+            how = rng.choice(["fit", "fit+1", "more", "neg", "mag", "mag", "pairs"])
+            if how == "fit":
+                q["warmup"] = max(fit, 0) * q["scantime"]
+            elif how == "fit+1":
+                q["warmup"] = (max(fit, 0) + 1) * q["scantime"]
+            elif how == "more":
+                q["warmup"] = rng.choice([1, 2, 8, 50]) * q["scantime"] + q["warmup"]
+            elif how == "neg":
+                q["warmup"] = -rng.choice([1, 3]) * q["scantime"]
+            elif how == "mag":
+                M2 = rng.choice([m for m in (1, 2, 3, 4, 5, 7) if m != M])
+                q["spotsize"], q["speed"], q["scantime"] = int_mag_triple(rng, M2)
+                q["warmup"] = rng.choice([0, 0, 1, 2]) * q["scantime"]
+            else:
+                q["pairs"] = gen_pairs(rng)
+            out.append(q)
+        case["probes"] = out
 
     def gen_cal(self, rng, case):
         """calibrations of the elements (a quarter of them the default one, never all) and 1-3 calls of get made before the
@@ -540,6 +580,8 @@ class C09(Prop):
         if rng.random() < 0.5:
             self.gen_cal(rng, case)
         self.gen_extra(rng, case, 0.2)
+        if rng.random() < 0.4:
+            self.gen_probes(rng, case)
         M, n = case["mag"], case["n"]
         (l0, s0), (l1, s1) = case["shapes"]
         pairs_cur = case["pairs"]
@@ -773,6 +815,13 @@ class C09(Prop):
         yield {**hcal, "steps": [{"op": "setdata", "names": ["P", "A"], "via": "list"}], "creads_at": "mid"}
         yield {**hcal, "steps": [{"op": "scribble"}], "ctor": "from_list"}
         yield {**hcal, "steps": [{"op": "replace", "layer": 1}], "ctor": "from_lasers"}
+        # ---- check_config_valid(config) with configurations other than the object's own
+        pq = {"spotsize": 70.0, "speed": 140.0, "scantime": 0.25, "warmup": 0.25, "pairs": [[0, 1]]}
+        yield {**base, "spotsize": 70.0, "mag": 2, "warmup": 0.25, "pairs": [[1, 3], [1, 2]], "shapes": [[3, 7], [2, 9]], "n": 3,
+               "probes": [{**pq, "warmup": 0.5}, {**pq, "warmup": 0.75}, {**pq, "warmup": 1.0}, {**pq, "warmup": -0.25},
+                          {**pq, "spotsize": 35.0}, {**pq, "spotsize": 105.0, "warmup": 0.0}, {**pq, "spotsize": 140.0, "warmup": 0.0}]}
+        yield {**hbase, "probes": [{**pq, "warmup": 0.75}, {**pq, "spotsize": 105.0, "warmup": 0.0}],
+               "steps": [{"op": "setdata", "shapes": [[2, 8], [3, 5]], "via": "list"}]}
         # ---- same-parity layers of different lengths
         rag = {**base, "spotsize": 70.0, "mag": 2, "warmup": 0.25, "pairs": [[1, 3], [1, 2]], "shapes": [[3, 5], [2, 7]], "nel": 2, "element": 1}
         yield {**rag, "n": 3, "extra": [0, 0, 2]}
@@ -1160,6 +1209,26 @@ class C09(Prop):
             impl["config"] = obs_cfg(cfg)
         except Exception as ex:
             impl["config"] = {"raises": type(ex).__name__, "msg": str(ex)[:200]}
+        # ---- check_config_valid(config) for configurations OTHER than the one the object holds (`probes`): the answer is about the
+        # configuration passed in, compared in both directions with Lean's validSpec for it (near-integer magnifications and
+        # warm-ups decided by float rounding are not judged)
+        pr_impl, pr_model, pr_spec, pr_feats = [], [], [], set()
+        probes = [q for q in case.get("probes", []) if probe_ok(q)]
+        if probes:
+            prep = ctx.driver.call("c09.valid", shapes=[[L["rows"], L["cols"]] for L in rep["stack"]],
+                                   cfgs=[srr_cfg_json(q) for q in probes])["configs"]
+            for q, pj in zip(probes, prep):
+                if not pj["integer_mag"] or float_mag(q) != float(pj["mag"]):
+                    continue
+                try:
+                    got = bool(laser.check_config_valid(make_srr_cfg(q)))
+                except Exception as ex:
+                    got = {"raises": type(ex).__name__, "msg": str(ex)[:200]}
+                pr_impl.append(got)
+                pr_model.append(pj["valid"])
+                pr_spec.append(pj["valid_spec"] if pj["warmup_determined"] else got)
+                pr_feats.add("probe-config:" + ("accepted" if got is True else "rejected"))
+        impl["probes"] = pr_impl
         if arr is None:
             impl["array"] = impl["roundtrip"] = impl["from_raster_array"] = arr_note
         else:
@@ -1247,6 +1316,9 @@ class C09(Prop):
         if len(cr_impl) != len(reads):
             raise core.InternalError("not every call of creads was made")
         model_ok = model_ok and same(cr_impl, cr_model)
+        model["probes"], spec["probes"] = pr_model, pr_spec
+        model_ok = model_ok and same(pr_impl, pr_model)
+        spec_ok = spec_ok and same(pr_impl, pr_spec)
 
         # float rounding of the warm-up quotient crosses a tie: the specification does not decide the warm-up in samples, so
         # nothing is demanded of the implementation; the MODEL (exact float64 arithmetic) still has to agree with it
@@ -1303,7 +1375,7 @@ class C09(Prop):
             if any(abs(v) >= 2**32 for L in rep["stack"] for px in L["data"][:1] for v in px):
                 feats.add("payload:beyond-2^32")
         if valid and "data" in impl.get("recon", {}):
-            feats |= cr_feats
+            feats |= cr_feats | pr_feats
             if cr_impl:
                 feats.add("creads:" + creads_at)
             if len(mj["offs"]) + (mj["offs"][0] != 0) > n:
@@ -1745,6 +1817,11 @@ class C09(Prop):
                     for key in ("names", "dtype", "scale", "shapes", "n"):
                         if key in stp:
                             yield {**case, "steps": steps[:k] + [{x: v for x, v in stp.items() if x != key}] + steps[k + 1:]}
+        if case.get("probes"):
+            yield {k: v for k, v in case.items() if k != "probes"}
+            if len(case["probes"]) > 1:
+                for k in range(len(case["probes"])):
+                    yield {**case, "probes": case["probes"][:k] + case["probes"][k + 1:]}
         if case.get("creads"):
             rds = case["creads"]
             if len(rds) > 1:
